@@ -122,6 +122,18 @@ func (env *Env) evalCall(x *ast.CallExpr, st *State) Val {
 				r := env.eval(x.Args[0], st)
 				_, _, data, pos, _ := readerState(env, st, r)
 				return ioRest(env, st, data, pos)
+			case "rankof":
+				// rankof(f, x): the position of x in the total preorder decided by the comparator f,
+				// as a real number. A specification that assumes sign(f(a, b)) == sign(rankof(f, a) -
+				// rankof(f, b)) for all a, b assumes exactly that f is a sign-consistent total
+				// preorder (every total preorder on a countable set embeds in the rationals); the
+				// embedding turns transitivity chains into arithmetic the solver decides.
+				f := env.eval(x.Args[0], st)
+				v := env.eval(x.Args[1], st)
+				fs, vs := env.sortOf(f.Ty), env.sortOf(v.Ty)
+				name := "rank_" + mangle(fs) + "_" + mangle(vs)
+				env.c.decls.declFun(name, []string{fs, vs}, "Real")
+				return Val{T: app(name, f.T, v.T), Ty: types.Typ[types.Float64]}
 			case "jsonof":
 				// jsonof(data, T{}): the value json.Unmarshal stores for these bytes in a T
 				d := env.eval(x.Args[0], st)
@@ -834,7 +846,9 @@ func (env *Env) callFunc(fobj *types.Func, recv *Val, args []Val, st *State, cal
 		recvTy = recv.Ty
 	}
 	fi := env.resolveCallee(fobj, recvTy)
-	if fi != nil && fi.Ghost && fi.Decl != nil {
+	if fi != nil && fi.Ghost && fi.Decl != nil && fi.Contract == nil {
+		// ghost definitions are unfolded; a ghost function WITH a contract is a lemma proved as
+		// code (verified like any function) and used through its contract
 		return env.inlineFunc(fi, recv, args, st, call)
 	}
 	if fi != nil && fi.Contract != nil && !fi.Contract.Inline {
